@@ -4,6 +4,7 @@ C06 — cancellation is final, contained, and safe against late responses.
 import CruxVerif.Lemmas.RtTask
 import CruxVerif.Lemmas.Resolve
 import CruxVerif.Model.Hosts
+import CruxVerif.Lemmas.HostLtRun
 namespace Props.C06
 open M.Rt
 
@@ -47,6 +48,36 @@ theorem late_resolve_inert (l : Nat) (v : Val) (w : World) (h : (w.leaf l).recei
 theorem dropped_request_unresolvable (r : Resolve) (v : Val) (w : World) :
     (resolveReq (dropReq r w).1 v (dropReq r w).2).2.1 = .gone := by
   cases r <;> simp [dropReq, resolveReq]
+
+/-- CONTAINMENT by the hosting order (Lemmas/HostLt*.lean, ≈1300 lines; `instantiate` gives every hosted command an index
+    below its host's). In every world the direct host of ANY command (host-free task bodies, any nesting of then / and / all /
+    map_*) reaches after ANY history, every stored task hosts only commands below its own command (`HL`). -/
+theorem hosting_ordered_over_runs (c : Cmd) (hc : cmdHF c = true) (canon : Bool) (acts : List M.Hosts.Action)
+    (os : List M.Hosts.Obs) (d : M.Hosts.Direct) (h : M.Hosts.runDirect c canon acts = some (os, d)) : HL d.w :=
+  M.Hosts.runDirect_hl c hc canon acts os d h
+
+/-- … and in such a world, RUNNING command `c` — settling it, polling its tasks, whatever they host, run, cancel, abort or
+    drop recursively — leaves the task slab and the spawn queue of EVERY command with a larger index exactly as they were:
+    in particular those of the command hosting `c` and of everything above it. Cancellation inside `c` is contained. -/
+theorem run_is_contained (c : Nat) (w w' : World) (h : runUntilSettled c w = some w') (hw : HL w) :
+    HL w' ∧ (∀ q, c < q → (w'.cmd q).tasks = (w.cmd q).tasks) ∧
+      (∀ q t, c < q → t ∈ (w'.cmd q).spawnQ → t ∈ (w.cmd q).spawnQ) :=
+  let r := runUntilSettled_hl c w w' h hw
+  ⟨r.1, r.2.tasks, r.2.spawn⟩
+
+/-- dropping command `c` (when its host is cancelled, or when it has finished) reaches only commands below `c` -/
+theorem drop_is_contained (c : Nat) (w : World) (hw : HL w) :
+    HL (w.dropCmd c) ∧ (∀ q, c < q → ((w.dropCmd c).cmd q).tasks = (w.cmd q).tasks) :=
+  let r := World_dropCmd_hl w c hw
+  ⟨r.1, r.2.tasks⟩
+
+/-- one poll of a task of command `p` never touches the task slab of `p` itself — its own entry is still what `run_task`
+    took — nor of any command above; only `p`'s spawn queue grows, by tasks that host below `p` -/
+theorem poll_keeps_own_slab (d : Nat) (wk : Waker) (p : Nat) (b : Block) (w : World) (r : PollRes) (w' : World)
+    (h : pollAt d wk (.cmd p) b w = some (r, w')) (hw : HL w) (hb : hostsLtB p b = true) :
+    HL w' ∧ (∀ q, p ≤ q → (w'.cmd q).tasks = (w.cmd q).tasks) :=
+  let r := pollAt_hl d wk p b w r w' h hw hb
+  ⟨r.1, r.2.2.tasks⟩
 
 /-- STATED, NOT PROVED: after the cancellation point no output is attributable to the cancelled subtree, and the outputs
     of every sibling are those of the run with the cancelled subtree replaced by one that blocks forever
